@@ -23,7 +23,8 @@ RULE = ("histories of 1..12 operations applied in turn to one tree object, drawn
         "20% contain a KEPT rearrangement: nni_hold (Apply, the object returned by the rearranger is kept), 0-3 sort / rotate / reroot "
         "steps, nni_release (Undo of the same object); prunes that keep exactly two tips or exactly one tip.  Families: "
         "every shape <= 4 tips x 4 single-child configurations x all histories of length <= 2 (sampled in quick); every "
-        "shape with 4-5 tips x hold(k = 0..7) x {nothing, sort, rotate, rotate+sort, reroot at each of 5 inner nodes, reroot+reroot, reroot+sort} x release (6-tip shapes sampled).  Oracle additionally: a "
+        "shape with 4-5 tips x hold(k = 0..7) x {nothing, sort, rotate, rotate+sort, reroot at each of 5 inner nodes, reroot+reroot, reroot+sort} x release (6-tip shapes sampled); root tip removal: every unrooted shape with a trifurcating root (4-6 tips) x every arrangement of "
+        "the three root neighbours x prune of each root-adjacent tip x {nothing, sort, reroot} (60 sampled in quick).  Oracle additionally: a "
         "successful edit does not leave a tip as the root (except SubTree, UnRoot of the two-tip tree, trees already rooted "
         "at a tip); the oracle is evaluated on Go's result also when the model refuses the step.  thorough: every history of length <= 2 over a fixed alphabet of 36 operation instances on every "
         "rooted/unrooted/multifurcating shape with <= 5 tips (266 shapes), every history of length 3 on the 3-tip shapes, plus 20000 "
@@ -351,6 +352,32 @@ def singles_family(rng, g, sizes, sample=None):
                 out.append({"sx": sx({"tree": tt, "ops": ops}), "meta": m})
     return out
 
+def root_tip_family(rng, g, sizes, sample=None):
+    """removeTip at the root of an unrooted tree: every shape whose root has three neighbours, every arrangement of
+    these three (tip / inner node in each position), prune of each root-adjacent tip, then sort or reroot"""
+    from itertools import permutations
+    out = []
+    follow = [[{"op": Sym("sort"), "reinit": False}], [{"op": Sym("reroot"), "reinit": True, "sel": Sym("inner"), "i": 1}], []]
+    for n in sizes:
+        for sh in all_shapes(["t%d" % i for i in range(n)]):
+            if len(sh) != 3 or all(isinstance(x, list) for x in sh):
+                continue
+            for perm in sorted(set(permutations(range(3)))):
+                t = g.decorate([sh[i] for i in perm], lenmode=rng.choice(["all", "all", "mixed"]), supmode="mixed",
+                               up_random=rng.random() < 0.5)
+                tt = T(t)
+                for e, c in kids(t):
+                    if kids(c):
+                        continue
+                    for f in follow:
+                        ops = [{"op": Sym("prune"), "reinit": True, "names": [lit(c["name"])], "revert": False}] + f
+                        m = meta_of(t, ops, "roottip")
+                        m["rootkids"] = "".join("T" if not kids(x) else "I" for _, x in kids(t))
+                        out.append({"sx": sx({"tree": tt, "ops": ops}), "meta": m})
+    if sample is not None and len(out) > sample:
+        out = rng.sample(out, sample)
+    return out
+
 def gen(rng, tier):
     g = Gen(rng)
     out = []
@@ -362,12 +389,15 @@ def gen(rng, tier):
         out += exhaustive(rng, g, [3], maxlen=3)
         out += held_family(rng, g, [4, 5])
         out += held_family(rng, g, [6], sample=4)
+        out += root_tip_family(rng, g, [4, 5, 6])
         out += singles_family(rng, g, [3, 4])
     elif tier == "quick":
         out += exhaustive(rng, g, [3, 4], sample=8)
         out += held_family(rng, g, [4, 5], sample=1)
+        out += root_tip_family(rng, g, [4, 5], sample=60)
         out += singles_family(rng, g, [3, 4], sample=2)
     else:
         out += held_family(rng, g, [4], sample=2)
+        out += root_tip_family(rng, g, [4, 5, 6], sample=40)
         out += singles_family(rng, g, [3, 4], sample=2)
     return out
